@@ -19,6 +19,11 @@ pub(crate) mod specenc;
 #[path = "/verif/harness/spechdr.rs"]
 pub(crate) mod spechdr;
 
+// concrete playback tests written by the runner (only compiled by `cargo kani playback`)
+#[cfg(test)]
+#[path = "/verif/.work/playback.rs"]
+mod playback;
+
 /// An obligation that could not be decided for a reason that is not a fault of
 /// the code under verification (model capacity exceeded etc.).  The runner
 /// classifies failures whose description starts with "UNDECIDED" as exit 2.
